@@ -25,4 +25,9 @@ theorem T2_lock_discipline : Expected.lockOK Generated.lockFacts = true := by de
 /-- no function of package `valid` assigns package-level state except the two registration functions -/
 theorem T2_globals : Expected.globalsOK Generated.globalWriters = true := by decide
 
+/-- every zero-copy `[]byte → string` conversion of package `valid` is applied to a buffer made in the
+same function, after the last write to it and outside loops (C12: "the error text and parsed rule
+tokens it handed out never change when later calls reuse internal buffers") -/
+theorem T2_alias : Expected.aliasOK Generated.aliasFacts = true := by decide
+
 end PGV.Props.Facts
